@@ -5,6 +5,7 @@ import (
 	"fmt"
 	"math/rand"
 	"os"
+	"runtime"
 	"strings"
 	"sync"
 	"testing"
@@ -208,3 +209,77 @@ func TestFaultScenarios(t *testing.T) {
 
 var _ = rand.Int
 var _ = gen.LabelNames
+
+// TestHangingSiblingsFewProcessors: "one integration's failure never prevents the others of the same
+// receiver from sending and recording" - also when the process has fewer processors than the receiver
+// has integrations (a small container) and the failing ones occupy theirs for the whole flush.
+func TestHangingSiblingsFewProcessors(t *testing.T) {
+	run := vf.Cur()
+	sub := run.Sub("hanging-siblings-few-processors", "real app in virtual time with GOMAXPROCS set to 1 or 2 for the duration of the case; one receiver with 3-5 webhook integrations of which all but one hang until the flush deadline (the healthy one at a random position); one firing group, 3 flushes: the healthy integration must be sent the group at the first flush (before any hanging sibling is cut) and its notification recorded (no repeat at the next flushes), the hanging ones are cut at the deadline; non-trivial = every case; distinct by (seed)", 6)
+	n := run.N(8, 200)
+	prev := runtime.GOMAXPROCS(0)
+	defer runtime.GOMAXPROCS(prev)
+	for i := 0; i < n; i++ {
+		r := sub.Rand(i)
+		procs := 1 + i%2
+		runtime.GOMAXPROCS(procs)
+		nInteg := 3 + r.Intn(3)
+		healthy := r.Intn(nInteg)
+		gw, gi, ri := time.Second, 30*time.Second, time.Hour
+		gb := []string{"alertname"}
+		var integs []scen.Integ
+		for k := 0; k < nInteg; k++ {
+			integs = append(integs, scen.Integ{SendResolved: true})
+		}
+		cfg := &scen.Config{ResolveTimeout: 5 * time.Minute, Route: &model.RouteSpec{Receiver: "r0", GroupBy: &gb, GroupWait: &gw, GroupInterval: &gi, RepeatInterval: &ri},
+			Receivers: []scen.Receiver{{Name: "r0", Integs: integs}}}
+		dir := sysrun.ScratchDir("C20", "fewprocs", i)
+		synctest.Test(t, func(t *testing.T) {
+			script := func(instance, receiver string, idx int, now time.Time, att *sim.Attempt) sim.Outcome {
+				if idx == healthy {
+					return sim.Outcome{Kind: "ok"}
+				}
+				return sim.Outcome{Kind: "hang"}
+			}
+			in, err := sim.Start(sim.Options{ConfigYAML: cfg.YAML(), Dir: dir, Script: script})
+			if err != nil {
+				sub.Inconclusive("start: " + err.Error())
+				return
+			}
+			defer in.Stop()
+			start := time.Now()
+			far := start.Add(3 * time.Hour)
+			in.PostAlerts(sim.PostableAlert{Labels: model.Labels{"alertname": "A", "instance": "1"}, EndsAt: &far})
+			time.Sleep(95 * time.Second) // flushes at +1 s, +31 s, +61 s, +91 s
+			var ok []*sim.Attempt
+			cut := 0
+			for _, a := range in.Log.Attempts() {
+				if a.Idx == healthy && a.Outcome == "ok" {
+					ok = append(ok, a)
+				}
+				if a.Idx != healthy && (a.Outcome == "hang" || a.Outcome == "canceled") {
+					cut++
+				}
+			}
+			w := map[string]any{"seed": sub.Seed(i), "gomaxprocs": procs, "integrations": nInteg, "healthy_index": healthy, "successful_deliveries_of_the_healthy_one": len(ok), "hanging_deliveries_cut": cut}
+			sub.Count("hanging_deliveries_cut", int64(cut))
+			if len(ok) == 0 {
+				sub.Violation("healthy-integration-never-sent-while-siblings-hang", w)
+				return
+			}
+			if d := ok[0].Start.Sub(start); d > 2*time.Second {
+				w["first_delivery_at"] = d.String()
+				sub.Violation("healthy-integration-waits-for-hanging-siblings", w)
+				return
+			}
+			if len(ok) > 1 {
+				w["deliveries_at"] = fmt.Sprint(ok[1].Start.Sub(start))
+				sub.Violation("successful-notification-not-recorded-while-siblings-hang", w)
+				return
+			}
+			sub.Count("healthy_deliveries", 1)
+		})
+		os.RemoveAll(dir)
+		sub.Case(vf.Digest(sub.Seed(i)), true)
+	}
+}
